@@ -1,4 +1,4 @@
-\* M+G (quick, 1 case in 2 of the exhaustive enumeration - residue class chosen by the seed, unions of byte strings and pointers): unions of <= 2 members over P, L, B and the byte
+\* M+G (thorough, exhaustive, unions of byte strings and pointers): unions of <= 2 members over P, L, B and the byte
 \* strings s / c of 3 and 6 bytes, both pointer sizes (the member a union is packed from depends on the pointer size)
 CONSTANTS
   RawT = {"P", "L", "B", "s", "c"}
@@ -15,7 +15,7 @@ CONSTANTS
   BitSplits <- BitSplitsNone
   PS = {32, 64}
   VCs = {"pat"}
-  Stride = 2
+  Stride = 1
   Dev = {}
   Mode = "gen"
 INIT Init
